@@ -13,7 +13,7 @@ inductive QItem (quote : Char) : List Char → List Nat → Prop
   | esc (y : Char) (b : Nat) : (y, b) ∈ [('n', 10), ('r', 13), ('t', 9), ('\\', 92), ('\'', 39), ('"', 34), ('0', 0)] →
       QItem quote ['\\', y] [b]
   | hex2 (a b : Char) : isHex a = true → isHex b = true → QItem quote ['\\', 'x', a, b] [valueOf 16 [a, b]]
-  | uni (hs : List Char) : hs ≠ [] → hs.length ≤ 8 → (∀ h ∈ hs, isHex h = true) → valueOf 16 hs < 2 ^ 32 →
+  | uni (hs : List Char) : quote = '"' → hs ≠ [] → hs.length ≤ 6 → (∀ h ∈ hs, isHex h = true) →
       isScalar (valueOf 16 hs) = true → QItem quote ('\\' :: 'u' :: '{' :: (hs ++ ['}'])) (utf8 (valueOf 16 hs))
   | raw (c : Char) : isAscii c = false → (c == quote) = false → QItem quote [c] (utf8 c.toNat)
 
@@ -84,10 +84,11 @@ theorem lexQuote_item (quote : Char) (hq : (quote == '\\') = false) (sp : List C
     have ht : takeHex2 (a :: b :: rest) = ([a, b], rest) := by simp [takeHex2, ha, hb]
     simp [lexQuote, ht]
     exact ⟨_, rfl, rfl, rfl, by simp, by simp [Nat.add_assoc] <;> omega⟩
-  | uni hs hne hlen hh hv hsc =>
+  | uni hs hq hne hlen hh hsc =>
+    subst hq
     have hs' := spanHex_append hs ('}' :: rest) hh (by intro c hc; simp at hc; subst hc; decide)
     have hne' : hs.isEmpty = false := by cases hs with | nil => exact absurd rfl hne | cons _ _ => rfl
-    simp [lexQuote, hs', hne', hlen, hv, hsc]
+    simp [lexQuote, hs', hne', hlen, hsc]
     exact ⟨_, rfl, rfl, rfl, by simp, by simp [Nat.add_assoc] <;> omega⟩
   | raw c hc hcq =>
     obtain ⟨e1, e3, e4⟩ := nonascii_facts c hc
